@@ -75,7 +75,7 @@ def run_selfval(pid, src, rep):
         elif kind == "seeded":
             summary["seeded"] += 1
             want = e.get("rule")
-            hit = status == "violation" and (want is None or any(f.startswith(want + ":") for f in finds))
+            hit = status == "violation" and (want is None or any(f.startswith(w_ + ":") for f in finds for w_ in want.split("|")))
             if hit:
                 summary["caught"] += 1
             else:
